@@ -6,9 +6,10 @@ import gen as G
 import mrargs, armh
 
 PROP = 'C08'
-LEAN_MODULES = ['BR.Props.C08', 'BR.Props.C08Mass']
+LEAN_MODULES = ['BR.Props.C08', 'BR.Props.C08Mass', 'BR.Props.C08FD']
 THEOREMS = ['BR.C08.id_superposition', 'BR.C08.torque_decomposition', 'BR.C08.massForm_nonneg', 'BR.C08.addL_assoc', 'BR.C08.addL_comm',
-            'BR.C08M.zero_velocity_power', 'BR.C08M.energyForm_symm', 'BR.C08M.mass_symmetric', 'BR.C08M.mass_nonneg']
+            'BR.C08M.zero_velocity_power', 'BR.C08M.energyForm_symm', 'BR.C08M.mass_symmetric', 'BR.C08M.mass_nonneg',
+            'BR.C08F.inverse_of_forward', 'BR.C08F.solve_hypothesis_met', 'BR.C08F.massResponse_add', 'BR.C08F.massResponse_smul']
 TIE = ('The Newton-Euler recursion is modelled in lean/BR/Model/Dyn.lean over lists of links (any number); its Float instance is compared with fmr.InverseDynamics / MassMatrix / the derived terms on the same chains; '
        'the physical identities are evaluated directly on the MR functions and on the Arm-level re-implementations (finite differences where a derivative is involved).')
 TRUSTED = ['Lean 4.33 kernel + Mathlib v4.33 (axioms: propext, Classical.choice, Quot.sound)', 'harness/mrargs.py (chains, SPD inertias), harness/c08.py (independent link Jacobians, finite differences)',
